@@ -36,6 +36,7 @@ INF = 1 << 30           # "no memory limit" that still fits TLC's integers
 D10 = [(2, 4, 32, 128, 0), (0, 2, 16, 128, 0), (1, 4, 32, 16, 0), (3, 3, 32, 64, 0), (0, 1, 80, 128, 0)]
 HC_PARAMS = [(1, INF), (10, "peak"), (50, 0), (None, INF)]
 ALIGNS = (16, 32, 64, 128)
+E2E_ALIGNS = (16, 32, 64, 128, 256)        # --cpu-tensor-alignment
 
 
 # ------------------------------------------------------------------ lattice shared with TLC
@@ -112,7 +113,9 @@ def canon(ranges):
 def key_of(name, rec):
     k = "%s|%s|%s" % (name, rec["alg"], canon(rec["r"]))
     if rec["alg"].startswith("e2e"):
-        k += "|uses=%s|align=%d" % (hashlib.sha256(json.dumps(rec["uses"]).encode()).hexdigest()[:12], rec["alignment"])
+        src = ("uses", rec["uses"]) if "uses" in rec else ("graph", rec["graph"])
+        k += "|%s=%s|align=%d" % (src[0], hashlib.sha256(json.dumps(src[1], sort_keys=True).encode()).hexdigest()[:12],
+                                 rec["alignment"])
     if "hillclimb" in rec["alg"]:
         k += "|maxit=%s|limit=%s" % (rec["maxit"], rec.get("limit"))
     if rec["raised"]:
@@ -147,6 +150,10 @@ class Jobs:
 
     def e2e(self, out, alg, uses, alignment, maxit, limit, tag):
         out.append(("e2e", alg, tuple(uses), alignment, maxit, limit, self.next_id))
+        self._count(tag)
+
+    def e2eg(self, out, alg, graph, alignment, maxit, limit, tag):
+        out.append(("e2eg", alg, json.dumps(graph, sort_keys=True), alignment, maxit, limit, self.next_id))
         self._count(tag)
 
     def _count(self, tag):
@@ -221,7 +228,15 @@ def stages(tier, sd, J, lat):
             uses.append((a, b, rng.choice((rng.randrange(1, 300), 16 * rng.randrange(1, 64), rng.randrange(1, 1 << 18)))))
         alg = ("greedy", "linear", "hillclimb")[i % 3]
         p, lim = HC_PARAMS[rng.randrange(3)]
-        J.e2e(out, alg, uses, rng.choice(ALIGNS), p, 4096 if lim == "peak" else lim, "e2e-" + alg)
+        J.e2e(out, alg, uses, rng.choice(E2E_ALIGNS), p, 4096 if lim == "peak" else lim, "e2e-" + alg)
+    # ... and on a CPU subgraph calling NPU subgraphs: ranges requested twice (cpu_tensor_alignment by the CPU side, 16 by
+    # the NPU side, in both orders); every graph x cpu_tensor_alignment in {16..256} x the three allocators
+    for i in range(60 * scale):
+        graph = alloc_driver.random_graph(rng, rng.randrange(1, 7), i % 4 != 0)
+        p, lim = HC_PARAMS[rng.randrange(3)]
+        for al in E2E_ALIGNS:
+            for alg in ("greedy", "linear", "hillclimb"):
+                J.e2eg(out, alg, graph, al, p, 4096 if lim == "peak" else lim, "e2e2-" + alg)
     yield "random", out
 
     # --- S2C: the lattices TLC model-checks, complete
@@ -329,7 +344,7 @@ def tlc_batch(module, cfg, events, timeout=3000, heap="3g"):
 
 def validate(batch):
     for r in batch:
-        for k in ("uses", "alignment", "limit"):
+        for k in ("uses", "graph", "alignment", "limit"):
             r.pop(k, None)
     t0 = time.time()
     res, tagged = tlc_batch("AllocTrace", "AllocTrace.cfg", batch)
@@ -467,13 +482,13 @@ def main(tier):
             t0 = time.time()
             records = run_stage(pool, jobs, sd)
             t1 = time.time()
-            job_of = {j[5] if j[0] == "direct" else j[6]: j for j in jobs}
+            job_of = {j[5] if j[0] == "direct" else j[6]: j for j in jobs}   # e2e / e2eg carry the id last
             meta = {}
             for r in records:
                 for v in r["addr"] + [r["total"], r["iters"]] + [x for q in r["r"] for x in q]:
                     if v >= (1 << 31) or v < -1:
                         raise MachineryError("number out of TLC range in record %d" % r["t"])
-                meta[r["t"]] = {k: r.get(k) for k in ("uses", "alignment", "limit") if r.get(k) is not None}
+                meta[r["t"]] = {k: r.get(k) for k in ("uses", "graph", "alignment", "limit") if r.get(k) is not None}
                 run.evaluated()
                 if nontrivial(r):
                     run.nontrivial(hash((r["alg"], r["maxit"], tuple(map(tuple, r["r"])))))
@@ -564,7 +579,9 @@ def main(tier):
                         "hillclimb_steps": hc_conf}
     run.cov["rule"] = ("one record per call of a real allocator (greedy_allocation.allocate_live_ranges, "
                        "tensor_allocation.linear_allocate_live_ranges, tensor_allocation.hillclimb_allocate_live_ranges -> "
-                       "hillclimb_allocation.allocate_live_ranges, tensor_allocation.allocate on synthetic subgraphs). Inputs: "
+                       "hillclimb_allocation.allocate_live_ranges, tensor_allocation.allocate on synthetic networks: one CPU "
+                       "subgraph, and CPU subgraphs calling NPU subgraphs so that live ranges are requested twice with "
+                       "different alignments in both orders, x cpu_tensor_alignment 16..256). Inputs: "
                        "every point of the lattices TLC model-checks (constants parsed from the same .cfg, counts compared), "
                        "seeded random small sets (2-8 ranges, lattice and odd sizes, alignments 16..128), random large sets "
                        "(100-400 ranges, sizes up to 2^20), hill climb x (max_iterations, memory_limit) in "
@@ -573,6 +590,9 @@ def main(tier):
     run.assumptions += [
         "TotalOK reads 'equals the highest end address' as: never below it, at most the highest end rounded up to that "
         "buffer's own alignment, exact when every size is a multiple of its alignment (Greedy and LinearAlloc round sizes up)",
+        "end to end: the alignment a live range has to honour is the maximum requested for it (cpu_tensor_alignment where "
+        "the tensor is visible in the CPU subgraph, 16 for NPU-subgraph look-ups), computed from the synthetic graph, not "
+        "read back from the LiveRange; an AllocationError from verify_alignment/verify_allocation is an observation",
         "LinearAlloc: the requested alignment is the alloc_granularity argument; ranges carry it as their alignment; ranges "
         "of one equivalence class (equal weight_compression_config / clones of one LUT) have one size",
         "HillClimb iteration bound: calls of attempt_bottleneck_fix <= max_iterations + MIN_ITERATIONS_IMPROVE * "
@@ -588,6 +608,8 @@ def _weight(job):
         if job[1] == "hillclimb":
             return n * n * 8 if n > 12 else (2000 if job[3] is None and job[4] == 0 else 10)
         return n
+    if job[0] == "e2eg":
+        return 60 if job[1] == "hillclimb" else 5
     return len(job[2]) * (20 if job[1] == "hillclimb" else 1)
 
 
